@@ -84,6 +84,8 @@ public:
     return exclusionPatterns;
   }
 
+  /// Owns the strings that \see mustScanAfterPaths refers to.
+  basic::StringList mustScanAfterPathsStorage;
   std::vector<StringRef> mustScanAfterPaths;
 
   const std::vector<StringRef>& getMustScanAfterPaths() const {
